@@ -59,18 +59,43 @@ def drain():
 
 
 class ResODE(ODE):
+    ncomp: int = eqx.field(static=True, default=1, kw_only=True)
+
     def equation(self, t, u, params):
-        return u(t, params) - params.eq_params["c"]
+        r = u(t, params) - params.eq_params["c"]
+        if self.ncomp == 2:  # second component: a different landscape, so that the ranking depends on both
+            r = jnp.concatenate([r, 1.5 * jnp.sin(3.0 * jnp.reshape(t, (1,)))])
+        return r
 
 
 class ResStatio(PDEStatio):
+    ncomp: int = eqx.field(static=True, default=1, kw_only=True)
+
     def equation(self, x, u, params):
-        return u(x, params) - params.eq_params["c"]
+        r = u(x, params) - params.eq_params["c"]
+        if self.ncomp == 2:
+            r = jnp.concatenate([r, 1.5 * jnp.sin(3.0 * x[:1])])
+        return r
 
 
 class ResNonStatio(PDENonStatio):
     def equation(self, t, x, u, params):
         return u(t, x, params) - params.eq_params["c"]
+
+
+class SysODE(ODE):
+    def equation(self, t, u_dict, params_dict):
+        return u_dict["u"](t, params_dict.extract_params("u")) - params_dict.eq_params["c"]
+
+
+class SysStatio(PDEStatio):
+    def equation(self, x, u_dict, params_dict):
+        return u_dict["u"](x, params_dict.extract_params("u")) - params_dict.eq_params["c"]
+
+
+class SysNonStatio(PDENonStatio):
+    def equation(self, t, x, u_dict, params_dict):
+        return u_dict["u"](t, x, params_dict.extract_params("u")) - params_dict.eq_params["c"]
 
 
 def build(cfg, record=True):
@@ -91,13 +116,13 @@ def build(cfg, record=True):
             cls = RecODE if record else jinns.data.DataGeneratorODE
             g = cls(key, cfg["nt"], 0.0, 1.0, cfg["bt"], "uniform", rar, cfg["nt_start"])
             u = nets.affine_pinn("ODE", [[cfg["wt"]]], [cfg["b"]])
-            dyn = ResODE()
+            dyn = ResODE(ncomp=cfg.get("ncomp", 1))
         elif kind == "statio":
             cls = RecStatio if record else jinns.data.CubicMeshPDEStatio
             g = cls(key=key, n=cfg["n"], nb=None, omega_batch_size=cfg["bx"], omega_border_batch_size=None, dim=d,
                     min_pts=tuple(lo), max_pts=tuple(hi), rar_parameters=rar, n_start=cfg["n_start"])
             u = nets.affine_pinn("statio_PDE", [cfg["wx"][:d]], [cfg["b"]])
-            dyn = ResStatio()
+            dyn = ResStatio(ncomp=cfg.get("ncomp", 1))
         else:
             cls = RecNonStatio if record else jinns.data.CubicMeshPDENonStatio
             g = cls(key=key, n=cfg["n"], nb=None, nt=cfg["nt"], omega_batch_size=cfg["bx"], omega_border_batch_size=None,
@@ -106,7 +131,15 @@ def build(cfg, record=True):
             u = nets.affine_pinn("nonstatio_PDE", [[cfg["wt"]] + cfg["wx"][:d]], [cfg["b"]])
             dyn = ResNonStatio()
         params = jinns.parameters.Params(nn_params=u.init_params(), eq_params={"c": jnp.asarray(cfg["c"])})
-        if kind == "ode":
+        if cfg.get("system"):
+            # one-unknown, one-equation system loss (the schedule must not depend on the kind of loss)
+            params = jinns.parameters.ParamsDict(nn_params={"u": u.init_params()}, eq_params={"c": jnp.asarray(cfg["c"])})
+            if kind == "ode":
+                loss = jinns.loss.SystemLossODE(u_dict={"u": u}, dynamic_loss_dict={"e": SysODE()}, loss_weights=jinns.loss.LossWeightsODEDict(dyn_loss=1.0), params_dict=params)
+            else:
+                loss = jinns.loss.SystemLossPDE(u_dict={"u": u}, dynamic_loss_dict={"e": SysStatio() if kind == "statio" else SysNonStatio()},
+                                                loss_weights=jinns.loss.LossWeightsPDEDict(), params_dict=params)
+        elif kind == "ode":
             loss = jinns.loss.LossODE(u=u, dynamic_loss=dyn, initial_condition=None, params=params)
         elif kind == "statio":
             loss = jinns.loss.LossPDEStatio(u=u, dynamic_loss=dyn, params=params)
@@ -124,6 +157,9 @@ def residual_sq(cfg, t=None, x=None):
     if x is not None:
         x = np.asarray(x, dtype=np.float64)
         r = r + x @ np.asarray(cfg["wx"][: x.shape[-1]], dtype=np.float64)
+    if cfg.get("ncomp", 1) == 2:
+        first = np.asarray(t, dtype=np.float64) if t is not None and x is None else x[..., 0]
+        return r**2 + (1.5 * np.sin(3.0 * first)) ** 2
     return r**2
 
 
